@@ -8,10 +8,11 @@ SRC=/tmp/seed-out/$ID; OUT=/verif/seeded/$ID; WT=/dev/shm/wt-seed-$ID
 mkdir -p $OUT/demo; cp $SRC/patch.diff $OUT/; cp -r $SRC/demo/. $OUT/demo/; cp $SRC/NOTES.md $OUT/ 2>/dev/null
 git -C /repo worktree remove --force $WT 2>/dev/null; git -C /repo worktree add --detach $WT >/dev/null 2>&1 || { echo "worktree failed"; exit 1; }
 cd $WT
-runline=$(grep -h -m1 -i "run:" $OUT/demo/*.go | sed 's/.*[Rr]un: *//; s/ *(copy.*//')
+runline=$(grep -h -m1 "go test\|GO test" $OUT/demo/*.go $OUT/NOTES.md | head -1 | sed 's/.*\(\$GO test\|go test\)/go test/; s/ *(copy.*//; s/`.*//')
 pkg=$(echo "$runline" | grep -o '\./[A-Za-z0-9_/]*' | tail -1); pkg=${pkg%/}
 tags=""; echo "$runline" | grep -q -- "-tags verif" && tags="-tags verif"
 pat=$(echo "$runline" | grep -o "\-run *'\?[A-Za-z0-9_|]*'\?" | sed "s/-run *//; s/'//g")
+tpkg=$pkg; [ -d $pkg ] || { mkdir -p $pkg; tpkg=$(dirname $pkg); }   # demo in a package of its own: the existing tests are the parent's
 cp $OUT/demo/*.go $pkg/ 2>/dev/null
 demo() { timeout 1500 $GO test $tags -count=1 -run "$pat" $pkg/ >$1 2>&1; echo $?; }
 clean=$(demo $OUT/demo_clean.log)
@@ -20,7 +21,7 @@ build=$($GO build ./... >/dev/null 2>$OUT/build.log; echo $?)
 seeded=$(demo $OUT/demo_seeded.log)
 # the package's own tests with the patch (demo file removed)
 rm -f $pkg/seeded_demo_test.go; for f in $OUT/demo/*.go; do rm -f $pkg/$(basename $f); done
-pkgtests=$(timeout 2400 $GO test -count=1 $pkg/ >$OUT/pkgtests.log 2>&1; echo $?)
+pkgtests=$(timeout 2400 $GO test -count=1 $tpkg/ >$OUT/pkgtests.log 2>&1; echo $?)
 # our check against the seeded tree (quick tier)
 (cd /verif && VERIF_REPO=$WT timeout 3600 bin/vcheck run $CHK --tier quick) > $OUT/check.log 2>&1; chk=$?
 fps=$(grep "fingerprint=" $OUT/check.log | sed 's/.*fingerprint=\([^ ]*\).*/\1/' | sort -u | head -5 | tr '\n' ' ')
